@@ -155,7 +155,7 @@ func FuzzC33PostHandshake(f *testing.F) {
 		}
 		cs := renegCase{tg: tg, kind: kind, can13: has13x(o), warm13: flags&1 != 0 && has13x(o), preRequest: flags&2 != 0, requests: 1 + int(flags>>2)&1,
 			reneg: []int{-1, int(tls.RenegotiateNever), int(tls.RenegotiateOnceAsClient), int(tls.RenegotiateFreelyAsClient)}[int(flags>>4)&3],
-			script: renegScript{"fuzz", func(rg *rand.Rand, ch2 *wire.ClientHello) []renegRec {
+			script: renegScript{name: "fuzz", f: func(rg *rand.Rand, ch2 *wire.ClientHello) []renegRec {
 				if len(payload) == 0 {
 					return nil
 				}
